@@ -885,6 +885,9 @@ func (in *Interp) runFrame(fr *frame) {
 		nonPhis := in.executePhis(fr)
 		for _, instr := range nonPhis {
 			in.steps++
+			if in.steps&4095 == 0 && in.ex != nil && in.ex.stop && in.initDepth == 0 {
+				panic(pathEnd{"time", "exploration stopped (time or path budget)"})
+			}
 			if in.steps > in.cfg.MaxSteps {
 				panic(pathEnd{"steps", fmt.Sprintf("more than %d instructions on one path (in %s)", in.cfg.MaxSteps, fr.fn)})
 			}
